@@ -232,7 +232,7 @@ var props = []PropSpec{
 			"the statement asks client-certificate verification of the TLS collector only; the DTLS collector's configuration is checked for certificates and absence of PSK",
 		},
 		Harnesses: []HarnessSpec{
-			{Func: "Check_Exporter", NoNative: true, Reach: []string{"plaintext", "configuration-error", "tls", "dtls", "ca-rotated"},
+			{Func: "Check_Exporter", NoNative: true, Reach: []string{"plaintext", "configuration-error", "tls", "dtls", "ca-rotated", "dtls-name-unset"},
 				Bounds: "protocol {tcp, udp} x TLS settings {absent, present} x client certificate {absent, present} x CA parses {yes, no} x key pair parses {yes, no} x ServerName {empty, 6 symbolic bytes}; after a successful encrypted initialisation the CA in the same settings object is replaced and the process initialised a second time"},
 			{Func: "Check_Collector", NoNative: true, Reach: []string{"plaintext", "configuration-error", "tls", "tls-client-auth", "dtls"},
 				Bounds: "protocol {tcp, udp} x isEncrypted x client CA {absent, present} x PEM / key pair parsing outcomes"},
